@@ -8,12 +8,14 @@ LEVEL = "exploration"
 NEEDS = {"lib": ["dev", "release"]}
 RULE = ("mnemonic.parse events judged by an independent BIP-39 decoder; complete sweeps: every word x every position "
         "for the five legal lengths, all 2048 final words for every word count 1..40, counts 0..40; sampled: entropy "
-        "values, unknown words, whitespace layouts. distinct = distinct (phrase text, profile); non-trivial = the "
+        "values, unknown words, whitespace layouts; word-lookup probe: 32 M (quick) / 640 M (thorough) generated tokens (random 3-8 letters, "
+        "1-2 edits of list words) through Wordlist::search and through whole phrases, every accepted token checked against the pinned list. distinct = distinct (phrase text, profile); non-trivial = the "
         "oracle classified the phrase and the accept/reject decision and printed form were compared")
 ILLEGAL = [n for n in range(0, 41) if n not in bip39.LEGAL_COUNTS]
 REQUIRED = (["accept-%d" % n for n in bip39.LEGAL_COUNTS] + ["reject-count-%d" % n for n in ILLEGAL]
             + ["reject-checksum-%d" % n for n in bip39.LEGAL_COUNTS] + ["reject-word", "layout-messy-accept", "layout-unicode-whitespace-accept",
-                                                                           "lastword-valid-%d" % 12, "lastword-valid-24"])
+                                                                           "lastword-valid-%d" % 12, "lastword-valid-24",
+                                                                           "opt-wordscan-search-random", "opt-wordscan-search-near", "opt-wordscan-phrase-near", "opt-wordscan-list-word-hit"])
 
 
 def split_ascii(phrase):
@@ -90,7 +92,43 @@ def judge_parse(case, obs):
     return v
 
 
-JUDGES = {"parse": judge_parse}
+def judge_scan(case, obs):
+    """High-volume lookup probe: every token the tool's word lookup accepts must be exactly the list word at that index;
+    every phrase accepted with a substituted token must have a list word there and decode under the reference."""
+    o = obs[0]
+    v = V()
+    req = case["steps"][0]["lib"]
+    if o.get("unavailable"):
+        return v.bucket("opt-unavailable")
+    if "ok" not in o:
+        if "err" in o:
+            v.bad("C01/wordscan/error", "scan failed: %s" % o["err"])
+        return v
+    acc = o["ok"]["accepted"]
+    for a in acc:
+        t = a["token"]
+        if req["level"] == "search":
+            if bip39.INDEX.get(t) != a["index"]:
+                v.bad("C01/wordscan/non-list-token-accepted", "word lookup maps %r to index %s (list word there: %s); %r %s" % (
+                    t, a["index"], bip39.WORDS[a["index"]] if 0 <= a["index"] < 2048 else "-", t, "is word %d" % bip39.INDEX[t] if t in bip39.INDEX else "is not a list word"))
+            else:
+                v.bucket("opt-wordscan-list-word-hit")
+        else:
+            if t not in bip39.INDEX:
+                v.bad("C01/wordscan/phrase-with-non-list-token-accepted", "a phrase whose word %d is %r (not a list word) was accepted and printed as %r" % (a["pos"], t, a["printed"][:80]))
+            else:
+                words = req["phrase"].split(" ")
+                words[a["pos"]] = t
+                if bip39.classify(words) != "ok" or a["printed"] != " ".join(words):
+                    v.bad("C01/wordscan/phrase-accept-mismatch", "phrase with %r at %d accepted/printed differently from the reference" % (t, a["pos"]))
+                v.bucket("opt-wordscan-phrase-hit")
+    v.bucket("opt-wordscan-%s-%s" % (req["level"], req["mode"]))
+    for _ in range(o["ok"]["tested"] // 62500):
+        v.bucket("opt-wordscan-tokens-x62500")
+    return v
+
+
+JUDGES = {"parse": judge_parse, "scan": judge_scan}
 
 
 def _case(phrase, cls, tag="", **x):
@@ -113,12 +151,29 @@ def shards(tier, seed):
                     "exhaustive": "all 2048 final words for word counts %d..%d" % (lo, min(lo + 4, 40))})
     out.append({"name": "counts", "reps": 400 if T else 12, "exhaustive": "word counts 0..40"})
     out.append({"name": "unknown-words", "count": 40000 if T else 1200})
+    # high-volume probe of the word lookup itself (32 M tokens quick, 640 M thorough): a lookup that confuses tokens only rarely
+    # (a 32-bit digest, a prefix table) cannot be seen through whole phrases, where the checksum masks 15 of 16 confusions
+    for i in range(16):
+        out.append({"name": "wordscan-%d" % i, "i": i, "requests": 160 if T else 8, "tokens": 250000})
     out.append({"name": "layouts", "count": 40000 if T else 1000})
     return out
 
 
 def gen(shard, rng, tier):
     name = shard["name"]
+    if name.startswith("wordscan-"):
+        for k in range(shard["requests"]):
+            level = "phrase" if k % 4 == 3 else "search"
+            req = {"op": "wordlist.scan", "seed": rng.getrandbits(63), "count": shard["tokens"] // (4 if level == "phrase" else 1),
+                   "mode": "near" if k % 2 else "random", "level": level}
+            if level == "phrase":
+                n = rng.choice(bip39.LEGAL_COUNTS)
+                w = rand_words(rng, n - 1)
+                req["phrase"] = " ".join(w + [complete_last(rng, w)])
+            c = lib_case("scan", req, {"cls": "wordscan"}, "release" if k % 8 else "dev")
+            c["steps"][0]["cpu_limit"] = 300
+            yield c
+        return
     if name == "entropy-patterns":
         for n in bip39.LEGAL_COUNTS:
             nb = bip39.ENT_BYTES[n]
